@@ -229,11 +229,20 @@ Section Repo.
       end
     end.
 
-  Definition check_trees (fuel : nat) : option (list err * list id) :=
+  Definition walk_roots (fuel : nat) : option (list err * list id) :=
     fold_right (fun r acc =>
       match acc, walk fuel r with
       | Some (es, ps), Some (e1, p1) => Some (e1 ++ es, p1 ++ ps)
       | _, _ => None end) (Some ([], [])) (st_roots st).
+  (* the packs holding the snapshots' root trees are put into the set first (fix of the finding
+     "root-tree-pack-replaced-same-layout": before it, root-only tree packs were never read) *)
+  Definition root_packs : list id :=
+    flat_map (fun r => match lookup BTree r with Some (p, _) => [p] | None => [] end) (st_roots st).
+  Definition check_trees (fuel : nat) : option (list err * list id) :=
+    match walk_roots fuel with
+    | Some (es, ps) => Some (es, root_packs ++ ps)
+    | None => None
+    end.
 
   (* --- check_pack: the IndexPack handed over is rebuilt from the in-memory index
      (`into_index().into_iter()`): id and blobs only, every blob carrying the type the pack was
